@@ -12,11 +12,12 @@
 (*                   => RefCheck accepts it gap-free and it concludes the stated theorem      *)
 EXTENDS C02_Checker, C02_ImplDefs
 
-CONSTANTS FxIdPos, FxNegIdx, FxEmpty, FxExtNg, FxExtCmp
-FX == [idpos |-> FxIdPos, negidx |-> FxNegIdx, empty |-> FxEmpty, extng |-> FxExtNg, extcmp |-> FxExtCmp]
+CONSTANTS FxIdPos, FxNegIdx, FxEmpty, FxExtNg, FxExtCmp, FxArgSig, FxPosOcc
+FX == [idpos |-> FxIdPos, negidx |-> FxNegIdx, empty |-> FxEmpty, extng |-> FxExtNg, extcmp |-> FxExtCmp,
+       argsig |-> FxArgSig, posocc |-> FxPosOcc]
 
 VARIABLE iv
-Refines(i, r, p) == i.acc => r.ok /\ (IsNone(i.final) \/ i.final \in Finals(r, p))
+Refines(i, r, p) == i.acc => r.ok /\ (IsNone(i.final) \/ \E o \in Finals(r, p) : CanProve(o, i.final))
 Verdicts(p, n, g) ==
   LET inn == ImplCheck(p, Opts(TRUE, FALSE), FX)
       ig == ImplCheck(p, Opts(FALSE, FALSE), FX)
